@@ -535,6 +535,12 @@ pub(super) enum Au {
     BadTag,
     /// encrypted with the s2c key instead of c2s
     WrongKey,
+    /// a genuine c2s tag, but computed over different associated data (one header bit differs)
+    OtherAad,
+    /// a genuine c2s seal cut to its first k bytes (k < 16: not even a complete SIV tag; 0 = no ciphertext at all)
+    Trunc(u8),
+    /// the seal of an empty plaintext under a key that is neither of the session keys
+    ForeignEmpty,
 }
 
 #[derive(Clone, Debug, PartialEq, Eq, Hash, PartialOrd, Ord)]
@@ -602,11 +608,14 @@ impl Fld {
             Fld::Auth(a, inner) => format!(
                 "A{}({})",
                 match a {
-                    Au::Ok => "ok",
-                    Au::N8 => "n8",
-                    Au::N32 => "n32",
-                    Au::BadTag => "bad",
-                    Au::WrongKey => "key",
+                    Au::Ok => "ok".to_string(),
+                    Au::N8 => "n8".to_string(),
+                    Au::N32 => "n32".to_string(),
+                    Au::BadTag => "bad".to_string(),
+                    Au::WrongKey => "key".to_string(),
+                    Au::OtherAad => "aad".to_string(),
+                    Au::Trunc(k) => format!("tr{k}"),
+                    Au::ForeignEmpty => "for".to_string(),
                 },
                 inner.iter().map(|f| f.code()).collect::<Vec<_>>().join("+")
             ),
@@ -658,6 +667,9 @@ impl Fld {
                     "n32" => Au::N32,
                     "bad" => Au::BadTag,
                     "key" => Au::WrongKey,
+                    "aad" => Au::OtherAad,
+                    "for" => Au::ForeignEmpty,
+                    t if t.starts_with("tr") => Au::Trunc(t[2..].parse().ok()?),
                     _ => return None,
                 };
                 let inner = rest[open + 1..].strip_suffix(')')?;
@@ -1040,10 +1052,23 @@ pub(super) fn build_with(r: &Req, keys: &KeyEnv, plain_edit: Option<&dyn Fn(&mut
                     _ => 16,
                 };
                 let nonce = tagged(i as u8, K_NONCE, nonce_len);
-                let key = if *au == Au::WrongKey { sess.s2c_key() } else { sess.c2s_key() };
-                let mut ct = siv_encrypt(r.alg512, &key, &out, &nonce, &plain);
-                if *au == Au::BadTag {
-                    ct[3] ^= 0x10;
+                let key = match au {
+                    Au::WrongKey => sess.s2c_key(),
+                    Au::ForeignEmpty => vec![0x33; sess.key_len()],
+                    _ => sess.c2s_key(),
+                };
+                let mut aad = out.clone();
+                if *au == Au::OtherAad {
+                    aad[2] ^= 0x01; // the poll byte of the header
+                }
+                if *au == Au::ForeignEmpty {
+                    plain.clear();
+                }
+                let mut ct = siv_encrypt(r.alg512, &key, &aad, &nonce, &plain);
+                match au {
+                    Au::BadTag => ct[3] ^= 0x10,
+                    Au::Trunc(k) => ct.truncate(*k as usize),
+                    _ => {}
                 }
                 let mut body = vec![];
                 body.extend_from_slice(&(nonce.len() as u16).to_be_bytes());
@@ -1061,7 +1086,9 @@ pub(super) fn build_with(r: &Req, keys: &KeyEnv, plain_edit: Option<&dyn Fn(&mut
                 len_offsets.extend([o + 2, o + 4, o + 6]);
                 // nothing of the authenticator may come back
                 acc.forbidden.push(nonce[..8].try_into().unwrap());
-                acc.forbidden.push(ct[..8].try_into().unwrap());
+                if ct.len() >= 8 {
+                    acc.forbidden.push(ct[..8].try_into().unwrap());
+                }
                 if ct.len() >= 24 {
                     acc.forbidden.push(ct[16..24].try_into().unwrap());
                 }
